@@ -107,3 +107,13 @@ REG.contract(T + "Offset.__init__#int", of=T + "Offset.__init__", params={"x": "
 FUNCTIONS += [T + "Offset.__init__", T + "Offset.__init__#int"]
 ASSUMPTIONS += ["pandas.api.types.is_numeric_dtype is an uninterpreted predicate (Offset.__init__ is verified for int and float arguments only, "
                 "where its answer does not matter)"]
+
+# ---- Call.eval_proportion (C15 / C16): only as a response; the term's value is the two columns Proportion.eval returns -----------
+REG.declare_class(C + "@prop", {"is_response": "bool", "value": "arr", "kind": "str?", "name": "str"})
+REG.contract(C + ".eval_proportion", self_type=C + "@prop", params={"proportion": T + "Proportion"}, tags=["C15", "C16"],
+             modifies=["self.value"], requires=["proportion.successes.shape[0] == proportion.trials.shape[0]"],
+             raises={"ValueError": "not self.is_response"},
+             ensures=["self.value.ndim == 2", "self.value.shape[0] == proportion.successes.shape[0]", "self.value.shape[1] == 2",
+                      "forall(0, proportion.successes.shape[0], lambda r: self.value[r, 0] == proportion.successes[r] and "
+                      "self.value[r, 1] == proportion.trials[r])"])
+FUNCTIONS += [C + ".eval_proportion"]
